@@ -105,8 +105,15 @@ impl<L: Language> Pattern<L> {
 impl<L: Language> RecExpr<L> {
     pub fn parse(s: &str) -> Result<Self, ParseError> {
         let pat = Pattern::parse(s)?;
-        Ok(pattern_to_re(&pat))
+        // a term has neither pattern variables nor substitutions.
+        try_pattern_to_re(&pat).ok_or_else(|| ParseError::TokenState(s.to_string()))
     }
+}
+
+fn try_pattern_to_re<L: Language>(pat: &Pattern<L>) -> Option<RecExpr<L>> {
+    let Pattern::ENode(n, children) = pat else { return None };
+    let children = children.iter().map(try_pattern_to_re).collect::<Option<Vec<_>>>()?;
+    Some(RecExpr { node: n.clone(), children })
 }
 
 impl<L: Language> MultiPattern<L> {
